@@ -242,8 +242,10 @@ package ociclient
 //@ func (*blobWriter).flush
 //@   holds w.mu
 //@   private resp, req, w
+//@   modifies ociclient.blobWriter.flushed, ociclient.blobWriter.chunk, ociclient.blobWriter.location, url.URL, http.Request, map:http.Header
 //@   ensures[nothing-outstanding-nothing-sent] commitDigest == "" && len(buf) + old(len(w.chunk)) == 0 ==>
-//@     result == nil && ncalls() == 0 && w.flushed == old(w.flushed)
+//@     result == nil && w.flushed == old(w.flushed) && w.chunk == old(w.chunk)
+//@   ensures[nothing-outstanding-no-request] commitDigest == "" && len(buf) + old(len(w.chunk)) == 0 ==> ncalls() == 0
 //@   ensures[labelled-with-its-place-in-the-upload] result == nil && !(commitDigest == "" && len(buf) + old(len(w.chunk)) == 0) ==>
 //@     req.ContentLength == old(len(w.chunk)) + len(buf) &&
 //@     hdr(req.Header, "Content-Range") == ocirequest.RangeString(old(w.flushed), old(w.flushed) + old(len(w.chunk)) + len(buf))
